@@ -690,6 +690,24 @@ theorem C14_epilogue_is_source :
   ⟨Bridge.C14.epilogue_source, Bridge.C14.close_sites_source.1, Bridge.C14.close_sites_source.2.1,
    Bridge.C14.close_sites_source.2.2⟩
 
+/-- **NewProvider's source switch is the source, and does not look at `preload`**: which configurations are accepted as
+an ammo source — inline `uris` only with the uri decoder and without a file, else a named file — is `sourceAccepted`,
+read off the regenerated guards of uriReadSeekCloser / fileReadSeekCloser (in which the translator accepts nothing but
+the decoder type and the file name: a guard on `conf.Preload` makes gen fail); so a source is rejected or accepted alike
+with preload off and on, and a rejected one runs nothing in either mode. -/
+theorem C14_source_switch_is_source (k : Fmt) (nUris : Nat) (hasFile : Bool) :
+    sourceAccepted k nUris hasFile =
+      !(if Gen.ChosenCases.sourceOf nUris = "uriReadSeekCloser" then Gen.ChosenCases.urisRejected (k == .uri) hasFile
+        else Gen.ChosenCases.fileRejected hasFile) ∧
+    (sourceAccepted k nUris hasFile = true ↔ (nUris > 0 ∧ k = .uri ∧ hasFile = false) ∨ (nUris = 0 ∧ hasFile = true)) := by
+  refine ⟨Bridge.C14.source_guards_source k nUris hasFile, ?_⟩
+  unfold sourceAccepted
+  by_cases h : nUris > 0
+  · simp only [h, if_true]
+    cases k <;> cases hasFile <;> simp <;> omega
+  · have h0 : nUris = 0 := by omega
+    simp [h0]
+
 /-- The variant in which the sentinel mapping of the preloaded path (ErrAmmoLimit / ErrPassLimit ↦ nil) is done at the
 END of the deferred function, after Run's result and the error of Close were made into one: "both paths end the same
 way whatever ended them". -/
@@ -826,6 +844,9 @@ example : target 0 2 ((mkFile ["a", "b", "a"]).filter (isChosen ["a"])).length n
     Gen.ChosenCases.httpRunDefer true true (EV.ofRun .errNoAmmo) = ⟨true, 1, ⟨.errOther, false⟩⟩ ∧
     Gen.ChosenCases.httpRunDefer true false (EV.ofRun .canceled) = ⟨true, 1, ⟨.canceled, false⟩⟩ ∧
     Gen.ChosenCases.httpRunDefer false true (EV.ofRun .nil) = ⟨true, 0, ⟨.nil, false⟩⟩ := by decide
+-- the source switch on concrete configurations: uris with the raw decoder, a file and uris, no source, uris alone, a file alone
+example : sourceAccepted .raw 2 false = false ∧ sourceAccepted .uri 2 true = false ∧ sourceAccepted .uri 0 false = false ∧
+    sourceAccepted .uri 2 false = true ∧ sourceAccepted .jsonArray 0 true = true := by decide
 -- what the harness prints for these errors; errors.Join instead of the two `%w` would keep both parts findable
 example : (EV.ofClose true).token = "closeerr" ∧ (EV.join (EV.ofRun .canceled) (EV.ofClose true) true true).token = "canceled+closeerr" ∧
     (EV.join (EV.ofRun .canceled) (EV.ofClose true) false false).token = "other" ∧ (EV.ofRun .nil).token = "nil" := by decide
